@@ -2,6 +2,7 @@ package gen
 
 import (
 	"fmt"
+	"github.com/ClickHouse/ch-go/proto"
 	"math"
 	"math/rand/v2"
 
@@ -44,6 +45,17 @@ func Supported(t string) bool {
 		if err != nil {
 			return
 		}
+		// A typed target must accept its own type string: result binding calls
+		// Infer(type) on inferable targets (binding itself is C18's subject;
+		// e.g. ColTuple forwards the whole tuple type to every element).
+		if inf, ok := col.(proto.Inferable); ok {
+			if err := inf.Infer(proto.ColumnType(t)); err != nil {
+				return
+			}
+		}
+		if proto.ColumnType(t).Conflicts(col.Type()) {
+			return
+		}
 		r := rand.New(rand.NewPCG(1, 2))
 		vals := Values(r, rt, 3)
 		if err := Fill(col, rt, vals); err != nil {
@@ -62,7 +74,7 @@ func Supported(t string) bool {
 // can construct; unsupported compositions are redrawn.
 func DrawType(c *choice.Stream, depth int) string {
 	for i := 0; i < 6; i++ {
-		t := drawType(c, depth)
+		t := drawType(c, depth, true)
 		if Supported(t) {
 			return t
 		}
@@ -70,17 +82,21 @@ func DrawType(c *choice.Stream, depth int) string {
 	return "UInt64"
 }
 
-func drawType(c *choice.Stream, depth int) string {
+func drawType(c *choice.Stream, depth int, top bool) string {
 	k := 0
 	if depth > 0 {
 		k = c.Weighted("type.shape", 10, 3, 3, 3, 1, 2, 2)
+	}
+	if k == 6 && !top {
+		// raw date/time columns need type inference, which composite columns do not forward correctly
+		k = 0
 	}
 	switch k {
 	case 1:
 		// Nullable over a scalar (Nullable cannot wrap composites)
 		return "Nullable(" + Scalars[c.Draw("type.scalar", len(Scalars))] + ")"
 	case 2:
-		return "Array(" + drawType(c, depth-1) + ")"
+		return "Array(" + drawType(c, depth-1, false) + ")"
 	case 3:
 		switch c.Draw("type.lc", 3) {
 		case 0:
@@ -99,7 +115,7 @@ func drawType(c *choice.Stream, depth int) string {
 			if i > 0 {
 				s += ", "
 			}
-			s += drawType(c, depth-1)
+			s += drawType(c, depth-1, false)
 		}
 		return s + ")"
 	case 6:
